@@ -33,8 +33,8 @@ type c03Case struct {
 	HTTPVerb  string
 	Path      string
 	Hdr       map[string]string
-	Refuse4xx bool // an HTTP 4xx/5xx answer is acceptable instead of a JSON-RPC error
-	IDOpt     bool // the envelope is invalid: an error reply may omit the id (it could not be determined)
+	Refuse4xx bool   // an HTTP 4xx/5xx answer is acceptable instead of a JSON-RPC error
+	IDOpt     bool   // the envelope is invalid: an error reply may omit the id (it could not be determined)
 	Registry  string // "" = the fixed registrations; "empty" = nothing registered; "hidden" = everything registered but hidden by list filters
 }
 
@@ -277,6 +277,10 @@ func c03Cases(tier string) []c03Case {
 			}
 			add(c)
 		}
+		// valid JSON objects that are no JSON-RPC message at all (neither a method nor a usable id): not served, never a 2xx/silence
+		for _, body := range []string{`{"jsonrpc":"2.0"}`, `{}`, `{"jsonrpc":"2.0","params":{"a":1}}`, `{"jsonrpc":"2.0","id":null}`} {
+			add(c03Case{Label: "not a message " + body, Msg: body, Codes: []int{-32600, -32700, -32601}, MustError: true, Refuse4xx: true, IDOpt: true})
+		}
 		// HTTP-level inputs the server does not serve
 		if mode != "io" {
 			ping := mkMsg(7, "ping", nil, nil)
@@ -472,7 +476,8 @@ func c03Eval(cs c03Case) CaseResult {
 			}
 		}
 		// content type of 2xx bodies
-		if re.Status >= 200 && re.Status < 300 && len(re.Body) > 0 && !strings.Contains(re.ContentType, "application/json") && !strings.Contains(re.ContentType, "text/event-stream") {
+		// (only where the body is not itself a JSON-RPC message: the property speaks about the messages, not about media types)
+		if re.Status >= 200 && re.Status < 300 && len(re.Body) > 0 && len(re.Frames) == 0 && !strings.Contains(re.ContentType, "application/json") && !strings.Contains(re.ContentType, "text/event-stream") {
 			viol = append(viol, V(key("content-type"), "2xx answer with body but Content-Type %q", re.ContentType))
 		}
 	}
